@@ -797,7 +797,7 @@ def run(ctx: Ctx):
     # histories of calls on one detector object (corpus first)
     hs = [c for c in load_corpus() if c["kind"] == "hist"]
     ctx.cov["corpus_histories"] = len(hs)
-    hs += gen_histories(ctx, ctx.rng("histories"), ctx.budget(16, 240), all_kind_pairs=not ctx.quick)
+    hs += gen_histories(ctx, ctx.rng("histories"), ctx.budget(16, 160), all_kind_pairs=not ctx.quick)
     hmism, _, hpairs = run_histories(ctx, hs)
     ctx.cov["histories_validated_against_impl"] = len(hpairs)
     ctx.cov["history_disagreements_checked"] = len(hmism)
